@@ -90,7 +90,7 @@ func (p *PauseController) Pause(failAfter time.Duration) error {
 	p.lock.Lock()
 	defer p.lock.Unlock()
 
-	if p.State != PauseStatePaused {
+	if p.State != PauseStatePaused || p.pauseChannel == nil {
 		p.pauseChannel = make(chan bool)
 	}
 
